@@ -66,8 +66,8 @@ func Now() Time {
 		return time.Now()
 	}
 	zzvrt.Point(zzvrt.KTime, nil)
-	if zzvrt.Choose(zzvrt.SeamTick, 2) == 1 {
-		x.Now = x.Now.Truncate(x.TickStep).Add(x.TickStep).Add(time.Millisecond)
+	if k := zzvrt.Choose(zzvrt.SeamTick, 1+len(x.TickLands)); k > 0 {
+		x.Now = x.Now.Truncate(x.TickStep).Add(x.TickStep).Add(x.TickLands[k-1])
 		zzvrt.Tracef("clock ticks to %s", x.Now.Format("2006-01-02T15:04:05.000"))
 	}
 	return x.Now
